@@ -58,6 +58,10 @@ pub struct ArpCfg {
     /// machine 2 first resolves this address itself (its request is overheard by everybody) and
     /// machine 0 starts resolving only 5 ms later
     pub overheard_first: Option<Ipv4Address>,
+    /// staggered resolvers around a failure: (gap between the resolver starts on machine 0 in
+    /// ms, time in ms before which every ARP frame is lost, time in ms at which the owner
+    /// (machine 1) itself sends an ARP request, which machine 0 overhears)
+    pub stagger: Option<(u64, u64, u64)>,
 }
 
 fn addr(m: usize, second: bool) -> Ipv4Address {
@@ -124,6 +128,25 @@ impl Protocol for Node {
                 tokio::time::sleep(Duration::from_millis(5)).await;
             }
         }
+        if let Some((_, _, talk_at)) = self.cfg.stagger {
+            if self.machine == 1 {
+                let mach = machine.clone();
+                tokio::spawn(async move {
+                    tokio::time::sleep(Duration::from_millis(talk_at)).await;
+                    let arp = mach.protocol::<Arp>().unwrap();
+                    let _ = arp
+                        .resolve(
+                            AddressPair {
+                                local: addr(1, false),
+                                remote: addr(2, false),
+                            },
+                            0,
+                            mach.clone(),
+                        )
+                        .await;
+                });
+            }
+        }
         let n = if self.machine == 0 {
             self.cfg.resolvers0
         } else if self.machine == 1 && self.cfg.resolver1 {
@@ -134,7 +157,11 @@ impl Protocol for Node {
         for i in 0..n {
             let (book, cfg, m, mach) = (self.book.clone(), self.cfg.clone(), self.machine, machine.clone());
             *book.started.lock().unwrap() += 1;
+            let gap = self.cfg.stagger.map(|s| s.0).unwrap_or(0) * i as u64;
             tokio::spawn(async move {
+                if gap > 0 {
+                    tokio::time::sleep(Duration::from_millis(gap)).await;
+                }
                 let arp = mach.protocol::<Arp>().unwrap();
                 let t0 = sched::vnow();
                 let r = arp
@@ -191,6 +218,7 @@ impl Scenario for ArpSc {
         let mut seen = 0usize;
         let arp_type = TypeId::of::<Arp>();
         let burst = cfg.burst;
+        let stagger = cfg.stagger;
         let mut burst_seen = 0usize;
         sched::install_wire_hooks(move |f| {
             if f.protocol != arp_type {
@@ -198,6 +226,11 @@ impl Scenario for ArpSc {
             }
             if drop_all {
                 return Verdict::Drop;
+            }
+            if let Some((_, until, _)) = stagger {
+                if f.t < Duration::from_millis(until) {
+                    return Verdict::Drop;
+                }
             }
             if let Some((replies, n)) = burst {
                 let is_reply = ArpPacket::from_bytes(f.bytes.iter().cloned())
@@ -371,6 +404,7 @@ pub fn cfgs(tier: &str) -> Vec<(ArpCfg, Bounds)> {
         drop_all: false,
         burst: None,
         overheard_first: None,
+        stagger: None,
     };
     let mut v = vec![];
     let mut add = |name: &str, f: &dyn Fn(&mut ArpCfg)| {
@@ -420,6 +454,19 @@ pub fn cfgs(tier: &str) -> Vec<(ArpCfg, Bounds)> {
         c.resolvers0 = 2;
         c.lossy = 2;
     });
+    // two resolvers of one address start `gap` ms apart, every ARP frame of the first one's
+    // whole budget is lost, and right after it gave up the owner is overheard
+    for (gap, talk) in [(100u64, 2010u64), (100, 1990), (250, 2010)] {
+        add(
+            &format!("staggered resolvers {gap} ms apart, all frames lost for 2 s, owner overheard at {talk} ms"),
+            &|c| {
+                c.resolvers0 = 2;
+                c.lossy = 1;
+                c.stagger = Some((gap, 2005, talk));
+                c.expect = Some(1);
+            },
+        );
+    }
     // only a late exchange of the retry budget gets through (RESEND_TRIES = 10)
     let js: Vec<usize> = if q { vec![5, 8, 9, 10] } else { (1..=11).collect() };
     for replies in [false, true] {
